@@ -212,3 +212,34 @@ func newStore(k storeKind, ns string) (store.Store, *badgerstore.Store, error) {
 		return st, st, nil
 	}
 }
+
+// wrapErrStore is a store.Store over another one whose transactions return the
+// not-found and duplicate errors wrapped in an error of their own, as the
+// store interfaces document a store may ("ErrNotFound (or an error that wraps
+// ErrNotFound)"). Handlers built on the interfaces must treat both alike.
+type wrapErrStore struct{ store.Store }
+
+type wrapErrRead struct{ store.ReadTxn }
+type wrapErrWrite struct{ store.WriteTxn }
+
+func wrapStoreErr(id string, err error) error {
+	if err != nil && (errors.Is(err, store.ErrNotFound) || errors.Is(err, store.ErrDuplicate)) {
+		return fmt.Errorf("item %q: %w", id, err)
+	}
+	return err
+}
+
+func (s wrapErrStore) Read(id string) store.ReadTxn   { return wrapErrRead{s.Store.Read(id)} }
+func (s wrapErrStore) Write(id string) store.WriteTxn { return wrapErrWrite{s.Store.Write(id)} }
+
+func (t wrapErrRead) Value() (interface{}, error) {
+	v, err := t.ReadTxn.Value()
+	return v, wrapStoreErr(t.ID(), err)
+}
+func (t wrapErrWrite) Value() (interface{}, error) {
+	v, err := t.WriteTxn.Value()
+	return v, wrapStoreErr(t.ID(), err)
+}
+func (t wrapErrWrite) Create(v interface{}) error { return wrapStoreErr(t.ID(), t.WriteTxn.Create(v)) }
+func (t wrapErrWrite) Update(v interface{}) error { return wrapStoreErr(t.ID(), t.WriteTxn.Update(v)) }
+func (t wrapErrWrite) Delete() error              { return wrapStoreErr(t.ID(), t.WriteTxn.Delete()) }
